@@ -2,6 +2,7 @@ package main
 
 import (
 	"fmt"
+	"go/constant"
 	"go/types"
 	"strings"
 
@@ -34,6 +35,66 @@ var trustedBase = map[string]string{
 	"(*regexp.Regexp).ReplaceAllString": "regexp.MustCompile(`[^a-z0-9]`).ReplaceAllString(s, \"\") = stripNonAlnum(s), which satisfies alnumLower",
 	"unicode/utf8.DecodeRuneInString":   "utf8.DecodeRuneInString(s) = (firstRune(s), runeLen(s)) with the axioms of std.spec",
 	"unicode.IsDigit":                   "unicode.IsDigit(r) = isDigitRune(r) (uninterpreted; axioms in std.spec)",
+}
+
+// pure std-lib packages: functions that cannot touch jennifer's heap or the ghost state
+var pureStdPkgs = map[string]bool{"strings": true, "strconv": true, "unicode": true, "unicode/utf8": true, "math": true, "bytes": true,
+	"sort": false, "fmt": false, "errors": true, "path": true, "path/filepath": true, "regexp": true, "math/bits": true}
+
+// opaqueCall models a call the engine has no contract for: results are unconstrained; functions of
+// pure std-lib packages leave the state alone, anything else may change everything it could reach
+// (every component is havoced). Obligations that depend on the result can then not be proved.
+func (u *Unit) opaqueCall(p *Path, x *ssa.Call, name string) {
+	enc := u.v.enc
+	u.noteUnmodelled("call to " + name + " has no assumed contract: result unconstrained")
+	pkgPath := ""
+	if f, ok := x.Call.Value.(*ssa.Function); ok && f.Pkg != nil {
+		pkgPath = f.Pkg.Pkg.Path()
+	}
+	if !pureStdPkgs[pkgPath] {
+		u.havocAll(p)
+	}
+	sig := x.Call.Signature()
+	var rs []*Term
+	for i := 0; i < sig.Results().Len(); i++ {
+		T := sig.Results().At(i).Type()
+		r := u.cx.Fresh("opaque_"+mangle(name), enc.SortOf(T)).WithT(T)
+		u.assumeWF(p, r, T)
+		rs = append(rs, r)
+	}
+	u.setResults(p, x, rs)
+}
+
+// havocAll forgets everything about the heap and the ghost state (allocation only grows).
+func (u *Unit) havocAll(p *Path) {
+	enc := u.v.enc
+	before := p.st.Get(u.cx, "alloc")
+	for _, cn := range enc.compList {
+		comp := enc.comps[cn]
+		nv := u.cx.Fresh(cn+"@havoc", comp.Sort)
+		if cn == "alloc" {
+			p.assume(Ge(nv, before))
+		}
+		if u.cx.frameInfo == nil {
+			u.cx.frameInfo = map[string]frameInfo{}
+		}
+		u.cx.frameInfo[nv.Op] = frameInfo{base: p.st.Get(u.cx, cn), hasRegion: true}
+		p.st.comps[cn] = nv
+	}
+	for _, cn := range enc.compList {
+		if inv := u.refInvariant(cn, p.st.Get(u.cx, cn), p.st.Get(u.cx, "alloc")); inv != nil {
+			p.assume(inv)
+		}
+	}
+}
+
+func (u *Unit) noteUnmodelled(s string) {
+	for _, x := range u.unmodelled {
+		if x == s {
+			return
+		}
+	}
+	u.unmodelled = append(u.unmodelled, s)
 }
 
 func (u *Unit) useTrusted(name string) {
@@ -268,8 +329,21 @@ func (u *Unit) execExtern(p *Path, x *ssa.Call, name string, args []*Term) {
 	case "unicode.IsDigit":
 		u.specFun("isDigitRune", []string{SInt}, SBool)
 		set1(App("isDigitRune", SBool, args[0]))
+	case "strings.Index":
+		set1(App("str.indexof", SInt, args[0], args[1], IntLit(0)))
+	case "strings.IndexByte":
+		if c, ok := x.Call.Args[1].(*ssa.Const); ok && c.Value != nil {
+			n, _ := constant.Int64Val(c.Value)
+			set1(App("str.indexof", SInt, args[0], StrLit(string(rune(n))), IntLit(0)))
+		} else {
+			u.opaqueCall(p, x, name)
+		}
+	case "strings.TrimPrefix":
+		set1(Ite(App("str.prefixof", SBool, args[1], args[0]), App("str.substr", SStr, args[0], App("str.len", SInt, args[1]), App("str.len", SInt, args[0])), args[0]))
+	case "strings.TrimSuffix":
+		set1(Ite(App("str.suffixof", SBool, args[1], args[0]), App("str.substr", SStr, args[0], IntLit(0), Sub(App("str.len", SInt, args[0]), App("str.len", SInt, args[1]))), args[0]))
 	default:
-		u.fail("call to %s, which has no assumed contract", name)
+		u.opaqueCall(p, x, name)
 	}
 }
 
